@@ -108,6 +108,9 @@ def bool_facts(b, truth):
     return [("true" if truth else "isfalse", b)]
 
 
+_CONST_CACHE = {}
+
+
 class Effect:
     __slots__ = ("kind", "gid", "idx", "d", "node")
 
@@ -140,6 +143,7 @@ class Interp:
         self.effects = {}      # (gid, idx) -> [Effect]
         self.calls = {}        # gid -> dict
         self.out_states = {}   # (gid, succ gid) -> state leaving gid towards succ
+        self._newtype_cache = {}
         self.optj = {}         # (join gid, key) -> (facts that hold only on the Some side, facts that hold only on the None side)
         self.unclassified = {}  # (gid) -> description
         self.prune_type_tests = prune_type_tests
@@ -326,6 +330,8 @@ class Interp:
             elif isinstance(e, dict) and "field" in e:
                 if path[0][0] == "AV" and not path[1] and e["field"] == "raw":
                     path = (("V", path[0][1]), ())
+                elif ty.get("k") == "adt" and self.scalar_newtype(ty.get("path")):
+                    pass      # a private newtype around one scalar / pointer is transparent: it is its field
                 else:
                     path = (path[0], path[1] + (e["field"],))
                 ty = self.tcx.subst(e["ty"], inst.subst)
@@ -375,6 +381,11 @@ class Interp:
             return Poly.const(int(c["val"]))
         if "uneval" in c:
             args = tuple(ty_str(self.tcx.subst(a, inst.subst)) for a in c.get("uneval_args", []) if a.get("k") != "region")
+            if is_int_ty(ty) or ty.get("k") == "bool":
+                # a scalar constant of this crate (`const SIZE: usize = size_of::<T>()`): evaluate its body under the substitution
+                v = self.eval_local_const(c, inst)
+                if v is not None:
+                    return v
             a = ("aconst", c["uneval"], args)
             return self.wrap(a, ty)
         if is_int_ty(ty) and ty.get("k") == "uint" and c.get("s") in inst.subst:
@@ -387,6 +398,33 @@ class Interp:
                 return Poly.const(int(cv["s"]))
             return Poly.atom(("cparam", cv.get("s") if cv else s))
         return ("const", s, ty_str(ty))
+
+    def eval_local_const(self, c, inst, depth=0):
+        cf = self.fx.fns.get(c["uneval"])
+        if cf is None or not cf.get("blocks") or depth > 3 or len(cf["blocks"]) > 12:
+            return None
+        targs = [self.tcx.subst(a, inst.subst) for a in c.get("uneval_args", []) if a.get("k") != "region"]
+        gens = [g for g in cf.get("generics", []) if g.get("kind") != "lifetime"]
+        if len(gens) != len(targs):
+            return None
+        sub = {g["name"]: a for g, a in zip(gens, targs)}
+        key = (c["uneval"], repr(sorted((k, ty_str(v)) for k, v in sub.items())))
+        cache = self.fx.__dict__.setdefault("_const_cache", {})      # per fact base (a worker process analyses several trees)
+        if key in cache:
+            return cache[key]
+        cache[key] = None
+        try:
+            from .graph import Graph
+            g = Graph(self.fx, cf, sub, max_depth=3)
+            J = Interp(g)
+            J.run()
+            rets = J.all_effects(("RETURN",))
+            v = rets[0]["value"] if len(rets) == 1 else None
+            if isinstance(v, Poly) or (isinstance(v, tuple) and v and v[0] in ("bconst", "needs_drop", "cmp", "not")):
+                cache[key] = v
+        except Exception:
+            cache[key] = None
+        return cache[key]
 
     def assign(self, st, path, ty, v):
         if isinstance(v, Tree):
@@ -790,9 +828,28 @@ class Interp:
             self.note_store(st, node, idx, dpath, dty, v, line)
         return self.terminator(gid, node, inst, st)
 
+    def scalar_newtype(self, adt_path):
+        """local struct with exactly one field, of scalar / pointer kind (`struct SlotPtr(NonNull<u8>)`, `struct Bytes(usize)`)"""
+        c = self._newtype_cache
+        if adt_path not in c:
+            a = self.fx.adts.get(adt_path)
+            ok = False
+            if a and a.get("kind") == "Struct" and len(a["variants"]) == 1 and len(a["variants"][0]["fields"]) == 1 \
+                    and a["variants"][0]["fields"][0]["name"] == "0":      # tuple newtype; structs with a named field keep it (rules read roles off field names)
+                ft = a["variants"][0]["fields"][0]["ty"]
+                ok = ft.get("k") in ("uint", "int", "ptr", "bool") or (ft.get("k") == "adt" and ft.get("path") in ("core::ptr::NonNull", "core::mem::MaybeUninit"))
+            c[adt_path] = ok
+        return c[adt_path]
+
     def assign_agg(self, st, inst, dpath, dty, rv, vals):
         self.kill_under(st, dpath)
         self.explode_parents(st, dpath)
+        if "adt" in rv and self.scalar_newtype(rv["adt"]) and len(vals) == 1:
+            if isinstance(vals[0], Tree):
+                self.copy_tree(st, vals[0].path, dpath)
+            else:
+                st.env[dpath] = vals[0]
+            return
         if "adt" in rv:
             adt = rv["adt"]
             if adt == "core::option::Option":
